@@ -112,6 +112,19 @@ func (v ValSpec) Bytes() []byte {
 		return refESLEncode(ls)
 	case "randdb":
 		return refRandDB(uint64(v.Tag))
+	case "cutupdate":
+		// the first N bytes of an authenticated update (timestamp, WIN_CERTIFICATE_UEFI_GUID header, part of the PKCS#7):
+		// a value that begins like an authentication descriptor and is none. The descriptor is a fixed reference one
+		// (sbvarsign's, from the repository's fixtures), so the bytes do not depend on a clock.
+		raw := fixture("repo", "auth", "db.auth")
+		if v.N < len(raw) {
+			raw = raw[:v.N]
+		}
+		out := append([]byte(nil), raw...)
+		if len(out) > 0 {
+			out[0] ^= byte(v.Tag) // year low byte: distinguishable values
+		}
+		return out
 	case "bool":
 		return []byte{byte(v.N)}
 	case "str":
@@ -121,6 +134,11 @@ func (v ValSpec) Bytes() []byte {
 			b = binary.LittleEndian.AppendUint16(b, u)
 		}
 		return append(b, 0, 0)
+	case "bootorder_odd":
+		// a BootOrder value with a stray byte behind the last entry (firmware has been seen to do it)
+		w := v
+		w.Kind = "bootorder"
+		return append(w.Bytes(), byte(v.Tag))
 	case "bootorder":
 		var b []byte
 		for i := 0; i < v.N; i++ {
@@ -488,6 +506,9 @@ func (e *fstraceEngine) Gen(seed uint64, tier string, run int) *Trace {
 					val.N = r.Intn(2)
 				case "bootorder":
 					val.N, val.Tag = r.Range(1, 9), r.Intn(0x10000)
+					if r.Chance(1, 4) {
+						val.Kind = "bootorder_odd"
+					}
 				case "str":
 					val.Tag = r.Intn(100000)
 				}
@@ -1104,6 +1125,11 @@ func ftRead(x *X, i int, op ftOp, v efivar.Efivar, p string, obj *efivarfs.Efiva
 		return
 	}
 	x.State(h64("r", op.API, "ok", stored == req, len(value) == 0, op.SinkFails))
+	if isTyped && op.API == "typed.GetBootOrder" && len(value)%2 == 1 {
+		// what a stray byte behind the last entry decodes to is not said anywhere; that the accessor survives it is checked above (no panic)
+		x.Probe("boot_order_with_stray_byte")
+		return
+	}
 	if isTyped {
 		wantTyped, wantErr := ftTypedRef(op.API, value)
 		if wantErr {
